@@ -132,6 +132,13 @@ pub fn parse_value(t: &[&str], dict: &Arc<Dictionary>) -> Option<AvpValue> {
         ["utf8", h] => UTF8String::new(&unhex_str(h)?).into(),
         ["ident", h] => Identity::new(&unhex_str(h)?).into(),
         ["oct", h] => OctetString::new(unhex(h)?).into(),
+        ["octn", n, b] => {
+            let b = unhex(b)?;
+            if b.len() != 1 {
+                return None;
+            }
+            OctetString::new(vec![b[0]; n.parse().ok()?]).into()
+        }
         ["uri", h] => DiameterURI::new(unhex(h)?).into(),
         _ => return None,
     })
@@ -838,6 +845,24 @@ impl State {
                     Err(_) => "err".into(),
                 }
             }
+            ["ench"] => {
+                let mut v = Vec::new();
+                match self.msg.encode_to(&mut v) {
+                    Ok(()) => format!("ok {} {}", v.len(), fnv(&v)),
+                    Err(_) => "err".into(),
+                }
+            }
+            ["encw", k, short, intr, mode] => {
+                let (k, short, intr) = match (k.parse::<usize>().ok(), short.parse::<usize>().ok(), intr.parse::<usize>().ok()) {
+                    (Some(a), Some(b), Some(c)) => (a, b, c),
+                    _ => return "bad-op".into(),
+                };
+                let mut w = FaultWriter { acc: Vec::new(), budget: k, short, intr, calls: 0, zero: *mode == "zero", failed: false };
+                match self.msg.encode_to(&mut w) {
+                    Ok(()) => format!("ok {} {}", w.acc.len(), fnv(&w.acc)),
+                    Err(_) => "err".into(),
+                }
+            }
             ["len"] => self.msg.get_length().to_string(),
             ["dump"] => dump_msg(&self.msg),
             ["rt"] => {
@@ -1001,4 +1026,50 @@ fn sweep_fold(t: &str, lo: u64, n: u64) -> Option<u64> {
         h = h.wrapping_mul(K).wrapping_add(num).wrapping_mul(K).wrapping_add(enum_);
     }
     Some(h)
+}
+
+/* ---------- C05: a writer that accepts exactly `budget` octets in total and then fails ---------- */
+
+pub fn fnv(b: &[u8]) -> u64 {
+    let mut h: u64 = 14695981039346656037;
+    for x in b {
+        h = (h ^ (*x as u64)).wrapping_mul(1099511628211);
+    }
+    h
+}
+
+struct FaultWriter {
+    acc: Vec<u8>,
+    budget: usize,
+    short: usize, // at most this many octets per call (0 = no limit): short writes
+    intr: usize,  // every intr-th call reports Interrupted without taking anything (0 = never): must be transparent
+    calls: usize,
+    zero: bool,   // fail as Ok(0) (WriteZero) instead of an error
+    failed: bool,
+}
+
+impl std::io::Write for FaultWriter {
+    fn write(&mut self, b: &[u8]) -> std::io::Result<usize> {
+        self.calls += 1;
+        if b.is_empty() {
+            return Ok(0);
+        }
+        if self.intr > 0 && self.calls % self.intr == 0 && !self.failed {
+            return Err(std::io::Error::new(std::io::ErrorKind::Interrupted, "interrupted"));
+        }
+        let room = self.budget - self.acc.len();
+        if room == 0 {
+            self.failed = true;
+            return if self.zero { Ok(0) } else { Err(std::io::Error::new(std::io::ErrorKind::BrokenPipe, "writer failed")) };
+        }
+        let mut n = b.len().min(room);
+        if self.short > 0 {
+            n = n.min(self.short);
+        }
+        self.acc.extend_from_slice(&b[..n]);
+        Ok(n)
+    }
+    fn flush(&mut self) -> std::io::Result<()> {
+        Ok(())
+    }
 }
